@@ -127,3 +127,6 @@ Proof. induction l as [|x r IH]; [reflexivity|]. cbn [flat_map]. rewrite map_app
 
 Lemma zrange_shift a n : zrange a n = map (Z.add a) (zrange 0 n).
 Proof. rewrite (zrange_seq a), (zrange_seq 0), map_map. apply map_ext. intros i. lia. Qed.
+
+Lemma flat_map_map {A B C} (f : B -> list C) (g : A -> B) l : flat_map f (map g l) = flat_map (fun x => f (g x)) l.
+Proof. induction l as [|x r IH]; [reflexivity|]. cbn [map flat_map]. rewrite IH. reflexivity. Qed.
